@@ -40,9 +40,96 @@ fn resp(toks: &[&str]) -> String {
     )
 }
 
+/// `dual <size> <stall_at>`: two responses with the SAME file as body, overlapping: the first is hand-polled until its
+/// writer has taken <stall_at> bytes and stalls (Pending), then the second is written completely, then the first is
+/// let go.  Each must carry the whole file: responses do not share read positions.
+fn dual(toks: &[&str]) -> String {
+    use std::future::Future;
+    use std::sync::atomic::{AtomicBool, Ordering::SeqCst};
+    use std::sync::Arc;
+    use std::task::{Context, Poll};
+    struct GateWriter {
+        out: Vec<u8>,
+        limit: usize,
+        open: Arc<AtomicBool>,
+    }
+    impl futures_io::AsyncWrite for GateWriter {
+        fn poll_write(mut self: std::pin::Pin<&mut Self>, _cx: &mut Context<'_>, buf: &[u8]) -> Poll<std::io::Result<usize>> {
+            if self.open.load(SeqCst) {
+                self.out.extend_from_slice(buf);
+                return Poll::Ready(Ok(buf.len()));
+            }
+            let room = self.limit.saturating_sub(self.out.len());
+            if room == 0 {
+                return Poll::Pending; // hand-polled: no waker needed
+            }
+            let n = room.min(buf.len());
+            self.out.extend_from_slice(&buf[..n]);
+            Poll::Ready(Ok(n))
+        }
+        fn poll_flush(self: std::pin::Pin<&mut Self>, _cx: &mut Context<'_>) -> Poll<std::io::Result<()>> {
+            Poll::Ready(Ok(()))
+        }
+        fn poll_close(self: std::pin::Pin<&mut Self>, _cx: &mut Context<'_>) -> Poll<std::io::Result<()>> {
+            Poll::Ready(Ok(()))
+        }
+    }
+    let size: usize = toks[0].parse().unwrap();
+    let stall_at: usize = toks[1].parse().unwrap();
+    let data: Vec<u8> = (0..size).map(|i| ((i * 7 + 3) % 251) as u8).collect();
+    let dir = temp_dir::TempDir::new().unwrap();
+    let path = dir.path().join("body.bin");
+    std::fs::write(&path, &data).unwrap();
+    let r1 = servlin::Response::new(200).with_body(servlin::ResponseBody::File(path.clone(), size as u64));
+    let r2 = servlin::Response::new(200).with_body(servlin::ResponseBody::File(path.clone(), size as u64));
+    let open = Arc::new(AtomicBool::new(false));
+    let mut w1 = GateWriter { out: Vec::new(), limit: stall_at, open: open.clone() };
+    let mut w2: Vec<u8> = Vec::new();
+    let res1;
+    let res2;
+    {
+        let mut fut1 = Box::pin(write_http_response(&mut w1, &r1, false));
+        let waker = futures_lite::future::block_on(async { std::task::Waker::noop().clone() });
+        let mut cx = Context::from_waker(&waker);
+        let mut early = None;
+        // until the first response stalls (its reader works on a blocking pool: give it time)
+        for _ in 0..400 {
+            if let Poll::Ready(r) = fut1.as_mut().poll(&mut cx) {
+                early = Some(r);
+                break;
+            }
+            std::thread::sleep(std::time::Duration::from_millis(1));
+        }
+        res2 = futures_lite::future::block_on(write_http_response(&mut w2, &r2, false));
+        open.store(true, SeqCst);
+        let t0 = std::time::Instant::now();
+        res1 = loop {
+            if let Some(r) = early.take() {
+                break Some(r);
+            }
+            match fut1.as_mut().poll(&mut cx) {
+                Poll::Ready(r) => break Some(r),
+                Poll::Pending if t0.elapsed() > std::time::Duration::from_secs(20) => break None,
+                Poll::Pending => std::thread::sleep(std::time::Duration::from_millis(1)),
+            }
+        };
+    }
+    let show = |res: &Option<Result<(), servlin::internal::HttpError>>, out: &[u8]| {
+        let r = match res {
+            None => "hang".to_string(),
+            Some(Ok(())) => "ok".to_string(),
+            Some(Err(e)) => respcase::err_name(e),
+        };
+        let body_ok = out.len() >= size && out[out.len() - size..] == data[..] && out.starts_with(b"HTTP/1.1 200 ");
+        format!("{r} whole={}", u8::from(body_ok))
+    };
+    format!("first: {} second: {}", show(&res1, &w1.out), show(&Some(res2), &w2))
+}
+
 fn main() {
     run_lines(|toks| match toks[0] {
         "resp" => resp(&toks[1..]),
+        "dual" => dual(&toks[1..]),
         "rp" => tok_of_bytes(reason_phrase(toks[1].parse().unwrap()).as_bytes()),
         "ct" => tok_of_bytes(respcase::variant(toks[1].parse().unwrap()).as_str().as_bytes()),
         _ => "?".to_string(),
